@@ -894,3 +894,186 @@ Proof.
   intros H. unfold run_session. cbn [run_body]. rewrite agent_loop_prefix; [reflexivity|].
   replace (MAX_TOOL_CALLS - 0) with MAX_TOOL_CALLS by lia. exact H.
 Qed.
+
+(* ---------- S6: the one-run-per-session guard under concurrent inputs ---------- *)
+Definition is_acc (p : pc) : bool := match p with PcAccepted => true | _ => false end.
+Definition nacc (pcs : list pc) : nat := length (filter is_acc pcs).
+
+Lemma upd_length {A} (l : list A) : forall i x, length (upd l i x) = length l.
+Proof. induction l as [|y r IH]; intros [|j] x; cbn [upd length]; auto. Qed.
+
+Lemma upd_Forall {A} (P : A -> Prop) (l : list A) : forall i x, Forall P l -> P x -> Forall P (upd l i x).
+Proof.
+  induction l as [|y r IH]; intros [|j] x F Px; cbn [upd]; auto.
+  - inversion F; subst. constructor; assumption.
+  - inversion F; subst. constructor; [assumption | apply IH; assumption].
+Qed.
+
+Lemma nacc_upd (l : list pc) : forall i old x, nth_error l i = Some old ->
+  (nacc (upd l i x) + (if is_acc old then 1 else 0) = nacc l + (if is_acc x then 1 else 0))%nat.
+Proof.
+  unfold nacc. induction l as [|y r IH]; intros [|j] old x E; cbn [nth_error] in E; try discriminate.
+  - injection E as ->. cbn [upd filter]. destruct (is_acc old), (is_acc x); cbn [length]; lia.
+  - cbn [upd filter]. specialize (IH j old x E). destruct (is_acc y); cbn [length]; lia.
+Qed.
+
+Definition GInv (st : bool * list pc) : Prop :=
+  Forall (fun p => p <> PcPassed) (snd st)
+  /\ nacc (snd st) = (if fst st then 1 else 0)%nat
+  /\ (fst st = false -> Forall (fun p => p = PcInit) (snd st)).
+
+Lemma GInv_init n : GInv (false, repeat PcInit n).
+Proof.
+  unfold GInv; cbn [fst snd]. repeat split.
+  - apply Forall_forall. intros p Hp. apply repeat_spec in Hp. subst. discriminate.
+  - unfold nacc. induction n as [|m IH]; cbn [repeat filter is_acc length]; auto.
+  - intros _. apply Forall_forall. intros p Hp. apply repeat_spec in Hp. exact Hp.
+Qed.
+
+Lemma GInv_step st a : GInv st -> GInv (guard_step GAtomicRmw st a).
+Proof.
+  destruct st as [started pcs]. intros (F & C & I). unfold guard_step; cbn [fst snd] in *.
+  destruct (nth_error pcs a) as [p|] eqn:E; [|repeat split; assumption].
+  destruct p; try (repeat split; assumption).
+  - (* PcInit *)
+    destruct started; unfold GInv; cbn [fst snd].
+    + repeat split.
+      * apply upd_Forall; [assumption | discriminate].
+      * pose proof (nacc_upd pcs a PcInit PcRefused E) as U. cbn [is_acc] in U. lia.
+      * discriminate.
+    + repeat split.
+      * apply upd_Forall; [assumption | discriminate].
+      * pose proof (nacc_upd pcs a PcInit PcAccepted E) as U. cbn [is_acc] in U. lia.
+      * discriminate.
+  - (* PcPassed: unreachable under the atomic guard *)
+    exfalso. apply nth_error_In in E. rewrite Forall_forall in F. exact (F _ E eq_refl).
+Qed.
+
+Lemma GInv_run sched : forall st, GInv st -> GInv (fold_left (guard_step GAtomicRmw) sched st).
+Proof. induction sched as [|a r IH]; intros st H; cbn [fold_left]; [assumption | apply IH, GInv_step, H]. Qed.
+
+Lemma guard_step_length gk st a : length (snd (guard_step gk st a)) = length (snd st).
+Proof.
+  unfold guard_step. destruct (nth_error (snd st) a) as [p|]; [|reflexivity].
+  destruct p; try reflexivity; [destruct (fst st); [|destruct gk] |]; cbn [snd]; apply upd_length.
+Qed.
+
+Lemma guard_run_length gk sched : forall st, length (snd (fold_left (guard_step gk) sched st)) = length (snd st).
+Proof.
+  induction sched as [|a r IH]; intros st; cbn [fold_left]; [reflexivity|].
+  rewrite IH. apply guard_step_length.
+Qed.
+
+Lemma guard_step_mono gk st a : fst st = true -> fst (guard_step gk st a) = true.
+Proof.
+  intros H. unfold guard_step. destruct (nth_error (snd st) a) as [p|]; [|assumption].
+  destruct p; try assumption; [rewrite H; reflexivity | reflexivity].
+Qed.
+
+Lemma guard_run_mono gk sched : forall st, fst st = true -> fst (fold_left (guard_step gk) sched st) = true.
+Proof. induction sched as [|a r IH]; intros st H; cbn [fold_left]; [assumption | apply IH, guard_step_mono, H]. Qed.
+
+(* the first caller to take a step sets the flag *)
+Lemma guard_first_step st a : GInv st -> (a < length (snd st))%nat -> fst (guard_step GAtomicRmw st a) = true.
+Proof.
+  destruct st as [started pcs]. intros (F & C & I) L. unfold guard_step; cbn [fst snd] in *.
+  destruct (nth_error pcs a) as [p|] eqn:E.
+  2:{ apply nth_error_None in E. lia. }
+  destruct started; [destruct p; reflexivity|].
+  specialize (I eq_refl). rewrite Forall_forall in I. rewrite (I p (nth_error_In _ _ E)). reflexivity.
+Qed.
+
+Lemma accepted_length {A} (pcs : list pc) : forall (inps : list A), length pcs = length inps ->
+  length (accepted_inputs pcs inps) = nacc pcs.
+Proof.
+  unfold nacc. induction pcs as [|p ps IH]; intros [|i r] L; cbn [length] in L; try discriminate; [reflexivity|].
+  cbn [accepted_inputs filter]. rewrite app_length, (IH r) by lia. destruct p; reflexivity.
+Qed.
+
+Lemma accepted_incl {A} (pcs : list pc) : forall (inps : list A) x, In x (accepted_inputs pcs inps) -> In x inps.
+Proof.
+  induction pcs as [|p ps IH]; intros [|i r] x H; cbn [accepted_inputs] in H; try contradiction.
+  apply in_app_or in H. destruct H as [H|H]; [|right; eapply IH; exact H].
+  destruct p; cbn in H; try contradiction. destruct H as [->|[]]. left; reflexivity.
+Qed.
+
+(* exactly one of any number of concurrent inputs is accepted, under every schedule in which somebody steps *)
+Lemma guard_one_accepted gk n a sched : guard_atomic gk = true -> (a < n)%nat ->
+  nacc (snd (run_guard gk n (a :: sched))) = 1%nat.
+Proof.
+  intros G L. destruct gk; [|discriminate]. unfold run_guard. cbn [fold_left].
+  pose proof (GInv_init n) as I0.
+  assert (T : fst (guard_step GAtomicRmw (false, repeat PcInit n) a) = true).
+  { apply guard_first_step; [exact I0 | cbn [snd]; rewrite repeat_length; exact L]. }
+  pose proof (GInv_run sched _ (GInv_step _ a I0)) as (_ & C & _).
+  rewrite (guard_run_mono GAtomicRmw sched _ T) in C. exact C.
+Qed.
+
+Lemma interleave_single a l : Interleave [a] l -> l = a.
+Proof.
+  intros H. inversion H as [|a' ls m l' Hm Mg]; subst. inversion Hm; subst. apply merge_nil_r. exact Mg.
+Qed.
+
+Theorem double_input_guarded gk g sid (inps : list input) a sched l :
+  guard_atomic gk = true -> (a < length inps)%nat ->
+  Interleave (map (run_session g sid None all_ok)
+                  (accepted_inputs (snd (run_guard gk (length inps) (a :: sched))) inps)) l ->
+  SessionShape (sess_stream sid l).
+Proof.
+  intros G L H.
+  pose proof (guard_one_accepted gk (length inps) a sched G L) as One.
+  assert (Len : length (snd (run_guard gk (length inps) (a :: sched))) = length inps).
+  { unfold run_guard. rewrite guard_run_length. cbn [snd]. apply repeat_length. }
+  rewrite <- (accepted_length _ inps Len) in One.
+  destruct (accepted_inputs (snd (run_guard gk (length inps) (a :: sched))) inps) as [|inp [|x r]]; cbn [length] in One; try discriminate.
+  cbn [map] in H. apply interleave_single in H. subst l. apply run_session_shape.
+Qed.
+
+(* what the harness's forced schedule gives: one accepted input for the atomic guard, all of them for check-then-set *)
+Lemma race_accepted_atomic n : 0 < n -> race_accepted GAtomicRmw n = 1.
+Proof.
+  intros P. unfold race_accepted, nlen.
+  destruct (N.to_nat n) as [|m] eqn:E; [lia|].
+  assert (S1 : stepped_sched (S m) = 0%nat :: (seq 1 m ++ seq 0 (S m))) by reflexivity.
+  rewrite accepted_length.
+  - rewrite S1, (guard_one_accepted GAtomicRmw (S m) 0 _ eq_refl) by lia. reflexivity.
+  - unfold run_guard. rewrite guard_run_length. cbn [snd]. rewrite !repeat_length. reflexivity.
+Qed.
+
+Lemma race_accepted_check_then_set_3 : race_accepted GCheckThenSet 3 = 3.
+Proof. vm_compute. reflexivity. Qed.
+
+(* check-then-set: two callers, schedule load/load/spawn/spawn: both accepted, two runs on one session id *)
+Lemma s6_cts_accepted :
+  accepted_inputs (snd (run_guard GCheckThenSet 2 [0; 1; 0; 1]%nat)) [IPrompt true []; IPrompt true []]
+  = [IPrompt true []; IPrompt true []].
+Proof. vm_compute. reflexivity. Qed.
+
+Lemma double_input_check_then_set_refuted :
+  exists g sid (inps : list input) sched l,
+    Forall (fun a => (a < length inps)%nat) sched /\ sched <> []
+    /\ Interleave (map (run_session g sid None all_ok)
+                       (accepted_inputs (snd (run_guard GCheckThenSet (length inps) sched)) inps)) l
+    /\ ~ SessionShape (sess_stream sid l).
+Proof.
+  exists g_stub, 1, [IPrompt true []; IPrompt true []], [0; 1; 0; 1]%nat, s6_log.
+  split; [repeat constructor|]. split; [discriminate|]. split; [|exact s6_not_shape].
+  cbn [length]. rewrite s6_cts_accepted. apply (interleave_concat s6_runs).
+Qed.
+
+(* ---------- the cut ---------- *)
+Lemma cut_floor_prefix n l : exists rest, l = cut_floor n l ++ rest.
+Proof.
+  revert n. induction l as [|b r IH]; intros n; cbn [cut_floor]; [exists []; reflexivity|].
+  destruct (is_cont b).
+  - destruct (IH n) as [rest E]. exists rest. cbn [app]. f_equal. exact E.
+  - destruct (char_len b <=? n).
+    + destruct (IH (n - char_len b)) as [rest E]. exists rest. cbn [app]. f_equal. exact E.
+    + exists (b :: r). reflexivity.
+Qed.
+
+(* é (2 bytes) at offsets 1..2 of "xé…": a cut at 2 keeps "x", never half a character *)
+Example cut_floor_demo : cut_floor 2 (seg_bytes [(120, 1); (233, 3)]) = [120]
+  /\ cut_floor 3 (seg_bytes [(120, 1); (233, 3)]) = [120; 195; 169]
+  /\ read_cut 2 (seg_bytes [(120, 1); (233, 3)]) = [120; 239; 191; 189].
+Proof. vm_compute. repeat split. Qed.
